@@ -405,7 +405,20 @@ func Program(w *WF, rt *Runtime) {
 			defer wg.Done()
 			wf.Run()
 		})
-		miniWorkflow("second", 2, "second_in.txt", "second").Run()
+		if w.ParallelFiles > 0 {
+			var files []string
+			for i := 0; i < w.ParallelFiles; i++ {
+				files = append(files, fmt.Sprintf("second_in_%d.txt", i))
+			}
+			iw := sp.NewWorkflow("second", w.ParallelSlots)
+			src := components.NewFileSource(iw, "second_src", files...)
+			p := iw.NewProc("second", "op second -i {i:a} -o {o:o0}")
+			p.SetOut("o0", "{i:a}.second.o0")
+			p.In("a").From(src.Out())
+			iw.Run()
+		} else {
+			miniWorkflow("second", 2, "second_in.txt", "second").Run()
+		}
 		wg.Wait()
 	}
 	switch {
